@@ -79,7 +79,13 @@ func c06Run(c C06Case, limit int64) (*h.Obs, int, string) {
 			if i == len(c.Chunks)-1 {
 				last = " LAST"
 			}
-			fmt.Fprintf(&in, "BDAT %d%s\r\n%s", k, last, strings.Repeat("a", k))
+			// payload with a line break every 64 octets: C06 is about sizes; LF-free runs longer than the
+			// line limit are C05's subject (known finding D6)
+			pl := []byte(strings.Repeat("a", k))
+			for i := 63; i < len(pl); i += 64 {
+				pl[i] = '\n'
+			}
+			fmt.Fprintf(&in, "BDAT %d%s\r\n%s", k, last, pl)
 			sum += int64(k)
 			if c.N > 0 && sum > c.N {
 				break // the conversation ends with the chunk that crosses the limit
